@@ -143,6 +143,7 @@ type pathState struct {
 	known        []knownRegion
 	fpMuls       int
 	inputLen     int
+	siteForks    map[ssa.Instruction]int // loop policy: decisions per branch site on this path
 	tempDirs     int
 	envCalls     int // environment (store/file) calls made on this path
 	crashAt      int // simulated kill at this environment call (0 = none)
@@ -749,6 +750,7 @@ func (in *Interp) explore(cfg *HarnessCfg, fn *ssa.Function, deadline time.Time,
 	in.solver.modelCostly = false
 	in.solver.send(fmt.Sprintf("(set-option :timeout %d)", cfg.TimeoutMs))
 	t0 := time.Now()
+	in.deadline, in.deadlineHit = deadline, false
 	funcCalls := map[*ssa.Function]int{}
 	for {
 		in.resetPath()
@@ -825,7 +827,7 @@ func (in *Interp) explore(cfg *HarnessCfg, fn *ssa.Function, deadline time.Time,
 			break
 		}
 		total := res.Paths + res.PanicPaths + res.AssumeCut + res.Infeasible + res.Unsupported + res.Unwind + res.Deadlocks
-		if cfg.MaxPaths > 0 && total >= cfg.MaxPaths || time.Now().After(deadline) {
+		if cfg.MaxPaths > 0 && total >= cfg.MaxPaths || time.Now().After(deadline) || in.deadlineHit {
 			res.PathLimitHit = true
 			res.note("exploration stopped after %d paths (limit/time): the remaining paths are outside this run's bound", total)
 			in.solver.pop(in.solver.level)
